@@ -335,6 +335,7 @@ func c14explore(rw *report.W, in sigInitial, kind string, depth int, byCanon map
 }
 
 func c14run(w *report.W) {
+	seamconfReport(w)
 	if _, err := sigKeys(); err != nil {
 		w.HarnessError("keys: %v", err)
 		return
